@@ -851,8 +851,8 @@ class Process(StateMachine, persistence.Savable, metaclass=ProcessStateMachineMe
     @super_check
     def on_playing(self) -> None:
         """The process was played."""
-        # Done being paused
-        if self._paused is not None:
+        # Done being paused (the future is already resolved if the process terminated while it was paused)
+        if self._paused is not None and not self._paused.done():
             self._paused.set_result(True)
         self._paused = None
 
